@@ -1,6 +1,7 @@
 """C08 - jump-level models execute by the documented statement semantics."""
 
 import copy
+import functools
 import itertools
 import json
 import os
@@ -94,7 +95,8 @@ for _name, _body in FUNC_BODIES.items():
 
 BASE = ['log', 'inc', 'j1', 'j2', 'ji1', 'l1', 'l2', 'ret', 'call']
 FULL = BASE + sorted(FUNC_BODIES)            # 14 atoms
-SMALL = BASE + ['fC']                        # 10 atoms (one function variant) for the longest lists
+SMALL = BASE + ['fC']                        # 10 atoms (one function variant): length 5
+NINE = [n for n in SMALL if n != 'j2']       # 9 atoms (the alphabet of DESIGN section 9 + the call): length 6
 # renaming L1 <-> L2: defined on the atoms whose image is again an atom
 SWAP = {'log': 'log', 'inc': 'inc', 'ret': 'ret', 'call': 'call', 'j1': 'j2', 'j2': 'j1', 'l1': 'l2', 'l2': 'l1', 'fD': 'fD'}
 
@@ -107,7 +109,7 @@ def build(names):
 
 def canonical_under_swap(names, alphabet_index):
     """False iff the L1<->L2 renaming of the list is also enumerated and comes earlier (then this list is pruned)."""
-    if any(n not in SWAP for n in names):
+    if any(n not in SWAP or SWAP[n] not in alphabet_index for n in names):
         return True
     img = [SWAP[n] for n in names]
     return [alphabet_index[n] for n in names] <= [alphabet_index[n] for n in img]
@@ -127,23 +129,28 @@ def enumerate_lists(alphabet, lengths, prune):
 # running the implementation (light-weight variant of progen.run_impl) and the reference interpreter
 # ---------------------------------------------------------------------------------------------------------------------
 
-def ref_wire(v, lib=None, depth=0):
-    """progen.value_to_wire, with the reference interpreter's function objects shown as script functions (depth-guarded:
-    generated programs can build an array that contains itself)."""
-    if depth > 30:
-        return '<cycle>'
-    if callable(v) and getattr(v, 'ref_script_function', False):
-        return {'f': 'script'}
-    if isinstance(v, list):
-        return [ref_wire(x, lib, depth + 1) for x in v]
-    if isinstance(v, dict):
-        return {'o': [[k, ref_wire(v[k], lib, depth + 1)] for k in sorted(v)]}
-    return progen.value_to_wire(v, lib, depth)
+def _script_function(ref, fn_model, args, unused_options):
+    """The reference interpreter's script function.  It is bound with functools.partial and is deliberately NAMED like the
+    implementation's, so that progen.value_to_wire shows it as {'f': 'script'} (same rendering, cycles included)."""
+    locals_ = {}
+    params = fn_model.get('args') or []
+    last = len(params) - 1
+    for ix, param in enumerate(params):
+        if fn_model.get('lastArgArray') and ix == last:
+            locals_[param] = list(args[ix:])
+        else:
+            locals_[param] = args[ix] if ix < len(args) else None
+    return ref.run(fn_model['statements'], locals_)
 
 
-def user_globals(g, wire):
+def user_globals(g, wire=None):
+    """The user-visible globals (library bindings left out), sorted, in wire form."""
     lib = fw.impl()['library'].SCRIPT_FUNCTIONS
-    return sorted([[k, wire(v, lib)] for k, v in g.items() if not (k in lib and v is lib[k])], key=lambda kv: kv[0])
+    try:
+        pairs = g.items() - lib.items()                # C speed; needs hashable values
+    except TypeError:
+        pairs = [(k, v) for k, v in g.items() if not (k in lib and v is lib[k])]
+    return sorted([[k, progen.value_to_wire(v, lib)] for k, v in pairs if not (k in lib and v is lib[k])], key=lambda kv: kv[0])
 
 
 def run_impl(model, globals_, max_statements):
@@ -164,7 +171,7 @@ def run_impl(model, globals_, max_statements):
     except Exception as exc:  # pylint: disable=broad-except
         out['hostexc'] = type(exc).__name__ + ': ' + str(exc)[:200]
     out['log'] = log
-    out['globals'] = user_globals(g, progen.value_to_wire)
+    out['globals'] = user_globals(g)
     out['count'] = options.get('statementCount')
     return out
 
@@ -223,18 +230,7 @@ class RefStatements:
         return None
 
     def make_function(self, fn_model):
-        def fn(args, unused_options):
-            locals_ = {}
-            params = fn_model.get('args') or []
-            last = len(params) - 1
-            for ix, param in enumerate(params):
-                if fn_model.get('lastArgArray') and ix == last:
-                    locals_[param] = list(args[ix:])
-                else:
-                    locals_[param] = args[ix] if ix < len(args) else None
-            return self.run(fn_model['statements'], locals_)
-        fn.ref_script_function = True
-        return fn
+        return functools.partial(_script_function, self, fn_model)
 
 
 def run_reference(model, globals_, max_statements):
@@ -243,18 +239,19 @@ def run_reference(model, globals_, max_statements):
     log = []
     g = copy.deepcopy(globals_)
     for name, fn in library.SCRIPT_FUNCTIONS.items():
-        g.setdefault(name, fn)
+        if name not in g:
+            g[name] = fn
     options = {'globals': g, 'maxStatements': 0, 'logFn': log.append, 'statementCount': 0}
     ref = RefStatements(options, max_statements)
     out = {}
     try:
-        out['result'] = ref_wire(ref.run(model['statements'], None), library.SCRIPT_FUNCTIONS)
+        out['result'] = progen.value_to_wire(ref.run(model['statements'], None), library.SCRIPT_FUNCTIONS)
     except mods['runtime'].BareScriptRuntimeError as exc:
         out['error'] = str(exc)
     except RecursionError:
         return None
     out['log'] = log
-    out['globals'] = user_globals(g, ref_wire)
+    out['globals'] = user_globals(g)
     out['count'] = ref.count
     return out
 
@@ -415,12 +412,13 @@ def jumps_taken_possible(model, impl):
 
 def stream_exhaustive(ctx, driver=True):
     quick = ctx.quick
-    plan = [(FULL, range(0, 5), False)] if quick else [(FULL, range(0, 6), True), (SMALL, [6], True)]
+    plan = [(FULL, range(0, 5), False)] if quick else [(FULL, range(0, 5), True), (SMALL, [5], True), (NINE, [6], True)]
     st = ctx.stream('exec-exhaustive',
                     'every statement list over {log, x=x+1, jump L1, jump L2, jumpif (x<2) L1, label L1, label L2, return x, call f(), '
                     'function f with one of 5 two-statement bodies (own label L1 / inner jump / dangling jump L2 / local assignment + '
-                    'return / inner loop)} as hand-built validated models, x=0, maxStatements=60: length<=4 (quick), length<=5 over all '
-                    '14 atoms + length 6 over 10 atoms (thorough, L1<->L2 renaming pruned); execute_script vs Lean execM (exec op); '
+                    'return / inner loop)} as hand-built validated models, x=0, maxStatements=60: length<=4 over all 14 atoms (quick); + length 5 '
+                    'over 10 atoms (one function body: the dangling jump) + length 6 over 9 atoms (those without jump L2) (thorough, L1<->L2 '
+                    'renaming pruned); execute_script vs Lean execM (exec op); '
                     'oracles: reference statement interpreter, model unchanged, two runs identical; non-trivial = one list has a jump and a label statement')
     enumerated = pruned = 0
     chunk = []
@@ -509,8 +507,8 @@ LEVEL_TEXT = ('Theorems about the Lean mirror of _execute_script_helper/_script_
               'lemmas for every statement kind (order, assignment scope, return ends only the current list and the call evaluates to its '
               'value, function statement binds the global, budget test first); a script-function call runs its own body from index 0 with '
               'labels resolved in that body only - the caller list is not an input of the callee. Tied to the code by differential '
-              'correspondence on hand-built validated models: every statement list of length <= 4 (quick) / <= 5 over 14 atoms and '
-              'length 6 over 10 atoms (thorough), random models <= 40 statements with duplicate labels and dangling jumps; implementation '
+              'correspondence on hand-built validated models: every statement list of length <= 4 over 14 atoms (quick), + length 5 over 10 '
+              'atoms and length 6 over 9 atoms (thorough), random models <= 40 statements with duplicate labels and dangling jumps; implementation '
               'oracles: independent reference statement interpreter, model dicts unchanged, two executions identical.')
 LEVEL_NOTE = ('Trusted: Lean kernel; the correspondence harness, its reference interpreter and generators. The theorems are about the Lean '
               'model; model immutability and repeatability are properties of the Python objects and are checked by sampling only '
